@@ -176,7 +176,7 @@ let () =
        | "M" :: content :: r ->
          let (a, _) = split_args r in
          let c = if content = "-" then "" else unhex content in
-         (match cli_main parse_tok (fun t -> t) passthru gen_tables gen_read_loop a (coq_of_string c) with
+         (match cli_main parse_tok (fun t -> t) passthru gen_tables gen_read_loop gen_read_check a (coq_of_string c) with
           | Done (_, f) -> print_string ("DONE " ^ (let h = hex (string_of_coq f.f_embedding) in if h = "" then "-" else h))
           | Fail c -> print_string (Printf.sprintf "FAIL %d" (int_of_z c))
           | MStuck -> print_string "STUCK")
